@@ -130,12 +130,12 @@ theorem C12_all_union_K1 (a b : Term) : a.allUnionAncestorIds b = a.unionAncesto
 /-! ### non-vacuity: concrete non-trivial instances satisfy the hypotheses -/
 
 example : Sorted [1, 5, 9] ∧ Sorted [2, 5, 7, 11] := by decide
-example : bitor [1, 5, 9] [2, 5, 7, 11] = [1, 2, 5, 7, 9, 11] := by simp [bitor]
+example : bitor [1, 5, 9] [2, 5, 7, 11] = [1, 2, 5, 7, 9, 11] := by decide
 example : bitand [1, 5, 9] [2, 5, 7, 11] = [5] := by decide
 example : ofList [9, 1, 5, 1, 9] = [1, 5, 9] := by decide
 example : insert [1, 5, 9] 5 = ([1, 5, 9], false) ∧ insert [1, 5, 9] 6 = ([1, 5, 6, 9], true) := by decide
 /-- K1 witness: two unrelated terms, the union variant documented to include them does not -/
 example : (7 : Nat) ∉ Term.allUnionAncestorIds { id := 7, name := [], allParents := [1] }
-    { id := 8, name := [], allParents := [1, 2] } := by simp [Term.allUnionAncestorIds, bitor]
+    { id := 8, name := [], allParents := [1, 2] } := by decide
 
 end Hpo.C12
